@@ -90,6 +90,12 @@ def judge(ctx, line, script, ops, impl, sock):
             ctx.violate("close-returns-within-timeout" if a[0] == "close" else "inert-after-close-or-loss", "call-raises-" + res[2:], inp,
                         "the call returns or raises a documented exception", res, size=size)
             break
+        if res == "X:STUCK":
+            ctx.violate("close-returns-within-timeout" if a[0] == "close" else "inert-after-close-or-loss",
+                        "call-never-returns@" + a[0].split(":")[0], inp,
+                        "the call returns or raises (every transport call of this session returns at once)",
+                        f"still running after {simnet.STUCK_S} s of wall time (the harness's watchdog fired)", size=size)
+            break
         if res == "X:SPIN":
             ctx.violate("inert-after-close-or-loss", "end-of-stream-not-recognised-as-loss", inp,
                         "X:CLOSED at the end of the stream, transport released", "keeps reading the ended stream", size=size)
